@@ -39,7 +39,11 @@ func (s *session) exchange(op *Op, ending string, clear bool, reply func(w wireR
 		s.conn.Arm(nil, "timeout")
 	}
 	pendBefore := s.conn.Pending()
-	s.conn.Arm([][]byte{pendBefore}, ending)
+	if len(pendBefore) > 0 {
+		s.conn.Arm([][]byte{pendBefore}, ending)
+	} else {
+		s.conn.Arm(nil, ending)
+	}
 	txnBefore := 0
 	if !isRTUKind(s.kind) {
 		txnBefore = s.mc.VerifConfig().LastTxnId
